@@ -960,3 +960,181 @@ def strip_targs(s):
         elif depth == 0:
             out.append(ch)
     return "".join(out)
+
+
+# -------------------------------------------------------------------------------------------------
+# abstract single-iteration execution of loops with symbolic bounds (cell / cubature / dof loops)
+# -------------------------------------------------------------------------------------------------
+
+class AbsSymEx(SymEx):
+    """SymEx that, instead of refusing a loop whose bound is not a constant, executes its body ONCE for an
+    arbitrary iteration: the loop variable becomes a fresh symbol (recorded in `loops` with its initial value
+    and its bound), and values carried around the loop are symbols named after their location (`prev`).  The
+    result is the normal form of ONE accumulation step `dst[i][j] = prev + f(i,j,k)`; nothing is claimed
+    about iteration counts.  Calls that are not inlined (`inline_filter`) are recorded as events and return
+    opaque input objects; objects handed to them by non-const reference become inputs (defined by the call).
+    Branches on non-constant conditions are refused (NotClosedForm)."""
+
+    def __init__(self, facts_list, opaque=None, inline_filter=None):
+        super().__init__(facts_list, opaque=self._opaque_entry)
+        self.user_opaque = opaque
+        self.inline_filter = inline_filter
+        self.loops = []        # {var: symbol name, init: value, cond: (op, lhs, rhs), line}
+        self.events = []       # {n, callee, cfull, ccls, this, args, node, ret, fn}
+        self.havoc = set()     # roots defined by opaque calls
+        self.nsym = 0
+
+    def fresh(self, base):
+        self.nsym += 1
+        return "%s#%d" % (base, self.nsym)
+
+    def lookup(self, call, fn):
+        t = super().lookup(call, fn)
+        if t is not None and self.inline_filter is not None and not self.inline_filter(t, call):
+            return None
+        return t
+
+    def read(self, loc):
+        try:
+            return super().read(loc)
+        except NotClosedForm:
+            if loc.root in self.havoc or any(isinstance(e, str) and e.startswith("#") for e in loc.path):
+                return Poly.sym(loc_name(loc))
+            raise
+
+    def sym_loc_name(self, loc):
+        return loc_name(loc)
+
+    # loops --------------------------------------------------------------------------------------
+    def _abstract_iteration(self, n, env, fn, loopvar_nodes):
+        cond = n.get("c")
+        rec = {"line": n.get("l"), "fn": fn.full, "vars": [], "cond": None}
+        # havoc the variables the increment modifies (the loop variables)
+        for vn in loopvar_nodes:
+            lv = self.eval(vn, env, fn)
+            if isinstance(lv, Loc):
+                try:
+                    init = self.read(lv)
+                except NotClosedForm:
+                    init = None
+                s = self.fresh(vn.get("n", "it"))
+                self.store[lv.key()] = Poly.sym(s)
+                rec["vars"].append({"sym": s, "init": init, "loc": lv})
+        if cond is not None and cond.get("k") == "Bin":
+            try:
+                rec["cond"] = (cond["op"], self.rv(self.eval(cond["lhs"], env, fn)), self.rv(self.eval(cond["rhs"], env, fn)))
+            except NotClosedForm:
+                rec["cond"] = None
+        self.loops.append(rec)
+        try:
+            self.exec(n["body"], env, fn)
+        except (_Break, _Continue):
+            pass
+
+    @staticmethod
+    def _inc_targets(inc):
+        out = []
+        if inc is None:
+            return out
+        st = [inc]
+        while st:
+            x = st.pop()
+            if x.get("k") == "Un" and x.get("op") in ("++", "--"):
+                out.append(x["e"])
+            elif x.get("k") == "Assign":
+                out.append(x["lhs"])
+            elif x.get("k") == "Bin" and x.get("op") == ",":
+                st.extend([x["lhs"], x["rhs"]])
+            elif x.get("k") == "OpCall" and x.get("op") in ("++", "--") and x.get("a"):
+                out.append(x["a"][0])
+        return out
+
+    def exec(self, n, env, fn):
+        if n is not None and n.get("k") == "For":
+            self.tick()
+            if n.get("init"):
+                SymEx.exec(self, n["init"], env, fn)
+            try:
+                c = n.get("c") is None or self.truth(self.eval(n["c"], env, fn))
+                constant = True
+            except NotClosedForm:
+                constant = False
+            if not constant:
+                self._abstract_iteration(n, env, fn, self._inc_targets(n.get("inc")))
+                return
+            # constant bound: unroll (first condition value already known)
+            while c:
+                self.tick()
+                try:
+                    self.exec(n["body"], env, fn)
+                except _Break:
+                    break
+                except _Continue:
+                    pass
+                if n.get("inc") is not None:
+                    self.eval(n["inc"], env, fn)
+                c = n.get("c") is None or self.truth(self.eval(n["c"], env, fn))
+            return
+        if n is not None and n.get("k") == "While":
+            try:
+                c = self.truth(self.eval(n["c"], env, fn))
+            except NotClosedForm:
+                self._abstract_iteration(n, env, fn, [])
+                return
+            return SymEx.exec(self, n, env, fn)
+        return SymEx.exec(self, n, env, fn)
+
+    # opaque calls --------------------------------------------------------------------------------
+    def record_event(self, n, callee, this_loc, args, fn, kind="call"):
+        ev = {"n": len(self.events), "kind": kind, "callee": callee, "cfull": n.get("cfull", ""), "ccls": n.get("ccls", ""),
+              "this": this_loc, "args": args, "node": n, "fn": fn, "pn": n.get("pn", []), "line": n.get("l")}
+        self.events.append(ev)
+        return ev
+
+    def default_opaque(self, n, callee, this_loc, args, fn):
+        """generic model of a call that is not inlined: record it, objects passed by non-const reference
+        (and the receiver of a non-const method) are defined by the call; the result is an opaque input"""
+        ev = self.record_event(n, callee, this_loc, args, fn, "construct" if n["k"] in ("Construct", "TempObj") else "call")
+        pts = n.get("pt", [])
+        for a, t in zip(args, pts):
+            ty = fn.type(t)
+            if isinstance(a, Loc) and is_ref_type(ty) and not ty.lstrip().startswith("const ") and not is_input_root(a.root):
+                self.havoc.add(a.root)
+                self._forget(a)
+        if n["k"] in ("Construct", "TempObj"):
+            if this_loc is not None and not is_input_root(this_loc.root):
+                self.havoc.add(this_loc.root)
+            ev["ret"] = this_loc
+            return this_loc
+        if this_loc is not None and not n.get("cconst") and not is_input_root(this_loc.root):
+            self.havoc.add(this_loc.root)
+            self._forget(this_loc)
+        r = Loc("CALL%d:%s" % (ev["n"], callee.rsplit("::", 1)[-1]))
+        ev["ret"] = r
+        return r
+
+    def _forget(self, loc):
+        d = self.store.root(loc.root)
+        n = len(loc.path)
+        for p in [p for p in d if p[:n] == loc.path]:
+            del d[p]
+
+    def _opaque_entry(self, sx, n, callee, this_loc, args, fn):
+        if self.user_opaque is not None:
+            r = self.user_opaque(self, n, callee, this_loc, args, fn)
+            if r is not None:
+                return r
+        return self.default_opaque(n, callee, this_loc, args, fn)
+
+    def construct(self, n, env, fn, loc):
+        target = self.lookup(n, fn)
+        if target is None:
+            if loc is None:
+                loc = self.new_temp("T")
+            args = [self.eval(a, env, fn) for a in n.get("a", [])]
+            # implicit (body-less) copy construction keeps its aggregate semantics
+            if len(args) == 1 and isinstance(args[0], Loc) and SymEx.lookup(self, n, fn) is None and n.get("cdecl") is None:
+                self.copy_agg(loc, args[0], n.get("l"))
+                return loc
+            return self._opaque_entry(self, n, n.get("callee", ""), loc, args, fn)
+        return SymEx.construct(self, n, env, fn, loc)
